@@ -295,7 +295,7 @@ def check(model, rep, tier):
   _c05.asdl_rule(model, rep, 'TI-ASDL', [TI])
 
   # ---------------------------------------------------------------- dependencies
-  rep.depends('C05', ['CFG-STMT', 'CFG-PAIR', 'CFG-TRY', 'CFG-SCOPE', 'CFG-KEYED', 'CFG-JUMP', 'CFG-LEAVES'],
+  rep.depends('C05', None,
               'types are joined along the edges of this graph: a missing edge '
               'loses the types assigned on that path')
   rep.depends('C08', ['PARAMS', 'ACT-TRAV'],
